@@ -40,7 +40,18 @@ def rules(t, with_obl=True):
     for cs in t.calls(r"NetcodeServer::process_packet_internal$", f):
         r.site(cs)
         e = t.result_edges(f, cs)
-        if not e: r.bad(f"{f.path}|edges", cs, "result of process_packet_internal is not matched"); continue
+        if not e:
+            # `self.process_packet_internal(..).unwrap_or_else(|e| { log; ServerResult::None })` / `.unwrap_or(ServerResult::None)`
+            me = norm(f.call_origin(cs.node)); okk = False
+            for u_ in t.calls(r"Result.*::unwrap_or(_else)?$", f):
+                if norm(strip(t.arg(u_, 0))) != me: continue
+                alt = strip(t.arg(u_, 1))
+                if method_of(callee_name(u_.node)) == "unwrap_or": okk = isinstance(alt, tuple) and alt[0] == "aggr" and alt[2] == "None" and "ServerResult" in str(alt[1])
+                else:
+                    cl = [g for g in fn_and_closures(t, f) if g is not f and short(g.path).split("::")[-1] in fmt(alt)]
+                    okk = bool(cl) and all(isinstance(strip(g.origin_of_local(0)), tuple) and strip(g.origin_of_local(0))[0] == "aggr" and strip(g.origin_of_local(0))[2] == "None" and "ServerResult" in str(strip(g.origin_of_local(0))[1]) for g in cl)
+            if not okk: r.bad(f"{f.path}|edges", cs, "result of process_packet_internal is not matched (and not mapped to ServerResult::None by unwrap_or / unwrap_or_else)")
+            continue
         region = t.region_from(f, e[1])
         built = [s for s in t.aggrs("server::ServerResult", None, f) if s.bb in region and s.bb not in t.region_from(f, e[0])]
         if not built or any(s.node["rv"]["vname"] != "None" for s in built): r.bad(f"{f.path}|err", cs, "Err edge does not yield ServerResult::None")
